@@ -34,7 +34,7 @@ ASSUMPTIONS = ['build shim np.int -> np.int64, np.int_t -> np.int64_t on a scrat
                'tolerance 1e-4*max(1,|omega|): float32 coordinates and accumulation; excluded inputs: coincident sites, coordinates more than one box length apart',
                'gcc libgomp/libasan/libubsan are trusted']
 MINIMA = {'quick': {'chunk.partition_checked': 12000, 'debye.compared': 40, 'debye.schedules': 400, 'asan.cases': 12},
-          'thorough': {'chunk.partition_checked': 12800, 'debye.compared': 200, 'debye.schedules': 10000, 'asan.cases': 100}}
+          'thorough': {'chunk.partition_checked': 12800, 'debye.compared': 80, 'debye.schedules': 4000, 'asan.cases': 60}}
 SHARDS = {'quick': 4, 'thorough': 16}
 TIME_BUDGET = {'quick': 50, 'thorough': 300}
 
